@@ -15,6 +15,9 @@ property text and not from the code:
   also carries what every run left in `exec.d`; the oracle (`execdVerdict`) demands equality of the runs and, when the
   write succeeded, that the identical content is the documented one ("replaces all existing exec.d programs"): exactly
   the wanted names, each a regular file of its own (no second name for its storage) holding its own source's bytes.
+* for the scenarios that register several SBOMs of one format (harness kind `sbom`) the observation carries the SBOM
+  files every run left; the oracle (`sbomVerdict`) demands equality of the runs and that the file of every registered
+  (target, format) holds the bytes of the SBOM registered last for it (`lastRegistered`), with no other SBOM file.
 -/
 namespace CnbVerif.Spec.Det
 open CnbVerif
@@ -111,6 +114,52 @@ def execdVerdict (wanted : List (Bytes × Bytes)) (obs : String) : String :=
         | some es =>
           if es.length == wanted.length && wanted.all (fun w => holdsOwnBytes es w.1 w.2) then "ok" else contentFailure
         | none => contentFailure
+    | _ => "fail:not a comparison result"
+
+/-! ### SBOM files when several SBOMs of one format are registered (harness kind `sbom`)
+
+A build result (or a layer) may be handed several SBOMs of one format; there is one file per (target, format). The
+property demands the same bytes in every run. Which bytes: the SBOMs are registered in a sequence (calls of
+`build_sbom` / `launch_sbom` / `LayerResultBuilder::sbom`, the slice of `write_sboms`) and the documented contract is
+"writes the given SBOMs, existing ones are overwritten" — so the file of a format holds the document registered
+**last** for it, a format nothing was registered for has no file (the scenario starts without SBOM files or replaces
+the layer's), and nothing else is there. -/
+
+/-- the bytes registered last under key `k` in the registration sequence -/
+def lastRegistered {κ : Type} [DecidableEq κ] (k : κ) : List (κ × Bytes) → Option Bytes
+  | [] => none
+  | (m, b) :: rest =>
+    match lastRegistered k rest with
+    | some later => some later
+    | none => if m = k then some b else none
+
+/-- one entry of the harness's listing of the SBOM files: `<file name hex>=<hex of the bytes>` -/
+def parseSbomEntry (s : String) : Option (Bytes × Bytes) :=
+  match s.splitOn "=" with
+  | [n, b] => match hexDecode n, hexDecode b with
+    | some n, some b => some (n, b)
+    | _, _ => none
+  | _ => none
+
+def sbomContentFailure : String :=
+  "fail:the SBOM files are the same in every run but are not, for every registered (target, format), the bytes of the SBOM registered last for it (and nothing else)"
+
+/-- the oracle of the `sbom` scenarios. `regs` = the registered SBOMs in registration order as (file name, bytes).
+Observation: `differ:…` (two runs differ: the property is violated), `infra:…`, or `equal|<result>|<listing>`. -/
+def sbomVerdict (regs : List (Bytes × Bytes)) (obs : String) : String :=
+  if obs.startsWith "differ:" then "fail:outputs of two runs on identical inputs " ++ obs
+  else if obs.startsWith "infra:" then "ok"
+  else
+    match obs.splitOn "|" with
+    | ["equal", res, listing] =>
+      if res.startsWith "err:" then "ok"       -- refused identically in every run: nothing is promised about the files
+      else if res != "ok" then "fail:not a comparison result"
+      else
+        match allSome ((splitList listing ",").map parseSbomEntry) with
+        | some files =>
+          if files.all (fun e => lastRegistered e.1 regs == some e.2) && regs.all (fun r => files.any (fun e => e.1 == r.1))
+          then "ok" else sbomContentFailure
+        | none => sbomContentFailure
     | _ => "fail:not a comparison result"
 
 end CnbVerif.Spec.Det
